@@ -75,6 +75,7 @@ def valOK (W : World) : Val → Bool
   | .bytes _ bs r => decodeBytesLit r == some bs
   | .float x r => x != .nan && f64Canonical x && r == x.repr
   | .opaque c callee _ n => notNan n && callee == c.path
+  | .decimal d r => notNan (some (numOfDec d)) && r == decRepr d
   | .set _ xs => hashableL xs && valOKL W xs
   | .tuple xs => valOKL W xs
   | .list xs => valOKL W xs
@@ -102,6 +103,7 @@ def domOK (W : World) : Val → Bool
   | .bytes _ bs r => decodeBytesLit r == some bs
   | .float x r => x != .nan && f64Canonical x && r == x.repr
   | .opaque c callee _ n => notNan n && callee == c.path
+  | .decimal d r => notNan (some (numOfDec d)) && r == decRepr d
   | .tuple xs => domOKL W xs
   | .set _ xs => hashableL xs && domOKL W xs
   | .list xs => domOKL W xs
